@@ -153,7 +153,7 @@ def g_filter(rng, need_rank=False, dtypes=None):
     if need_rank:
         nnz = sum(1 for v in bc["vals"] if v)
         # now and then a rank just outside the neighbourhood: the call must fail (or at least not depend on the heap)
-        args.append(rng.choice([nnz, nnz + 3, -1]) if rng.random() < 0.08 else rng.randrange(nnz))
+        args.append(rng.choice([nnz, nnz + 3, -1]) if rng.random() < 0.25 else rng.randrange(nnz))
     return args, kw
 
 
